@@ -286,6 +286,12 @@ func (g *Gen) newChk(t *Tbl) *Chk {
 func (g *Gen) newFK(s *Sch, t *Tbl) (*FK, *Col) {
 	var parents, composite []*Tbl
 	for _, p := range s.Tables {
+		// A table never references the table called new_<itself>: during its own rebuild that is the
+		// name of the temporary table, the reference turns into a self reference and SQLite rewrites
+		// it on RENAME (another face of the recorded finding temp-table-name-collision, DESIGN 11.4).
+		if p.Name == "new_"+t.Name {
+			continue
+		}
 		if len(p.PK) == 1 {
 			parents = append(parents, p)
 		}
@@ -485,7 +491,7 @@ func dropTable(s *Sch, name string) {
 // EditKinds are the elementary edits of a desired schema.
 var EditKinds = []string{
 	"add-table", "drop-table", "add-column", "add-generated-column", "drop-column",
-	"change-type", "toggle-null", "change-default", "add-index", "drop-index", "modify-index",
+	"change-type", "toggle-null", "change-default", "add-index", "drop-index", "modify-index", "move-index",
 	"add-check", "drop-check", "modify-check", "add-fk", "drop-fk", "modify-fk",
 	"toggle-without-rowid", "toggle-strict", "toggle-autoincrement", "modify-generated", "generated-to-regular",
 }
@@ -633,6 +639,29 @@ func (g *Gen) Edit(s *Sch, maxTables int) string {
 			return ""
 		}
 		t.Idx = remove(t.Idx, g.T.Draw("idx", len(t.Idx)))
+	case "move-index":
+		// An index name leaves this table and is used on another one (index names are global in
+		// SQLite): the old index has to go before the new one can be created.
+		var others []*Tbl
+		for _, o := range s.Tables {
+			if o != t && len(o.Idx) < 3 {
+				others = append(others, o)
+			}
+		}
+		if len(t.Idx) == 0 || len(others) == 0 {
+			return ""
+		}
+		k := g.T.Draw("idx", len(t.Idx))
+		name := t.Idx[k].Name
+		o := others[g.T.Draw("other-table", len(others))]
+		nx := g.newIdx(o)
+		if nx == nil {
+			return ""
+		}
+		t.Idx = remove(t.Idx, k)
+		nx.Name = name
+		o.Idx = append(o.Idx, nx)
+		g.use("index-name-moves-to-another-table")
 	case "modify-index":
 		if len(t.Idx) == 0 {
 			return ""
